@@ -47,3 +47,8 @@ Definition is_unitary (hz : Z) (M : pmat) : bool := meqb hz (p_mmul hz (p_madj M
 Definition commute (hz : Z) (X Y : pmat) : bool := meqb hz (p_mmul hz X Y) (p_mmul hz Y X).
 Definition is_diag (hz : Z) (M : pmat) : bool :=
   forallb (fun r => forallb (fun c => if Nat.eqb r c then true else pis_zero hz (mnth pzero M r c)) (seq 0 (length M))) (seq 0 (length M)).
+
+(* squared norm of an (unnormalised) amplitude vector, and the total over a family of branches *)
+Definition norm2 (hz : Z) (v : pvec) : poly := fold_right (fun x acc => nadd hz (nmul hz (pconj x) x) acc) pzero v.
+Definition norms_total (hz : Z) (vs : list pvec) : poly := fold_right (fun v acc => nadd hz (norm2 hz v) acc) pzero vs.
+Definition probs_total_one (hz : Z) (vs : list pvec) : bool := peqb hz (norms_total hz vs) pone.
